@@ -33,6 +33,18 @@ fn main() {
 // (number, quiet?) — SIGINT(2) is "transparent": stops, never delivered
 const SIGS: &[(i32, bool)] = &[(2, false), (10, false), (12, false), (14, true), (17, true), (23, true), (28, false), (29, true), (26, true), (27, true)];
 
+/// number of signals of SIGS the kernel holds pending for the (single-threaded) process right now: ShdPnd | SigPnd
+fn kernel_pending(pid: nix::unistd::Pid) -> usize {
+    let st = std::fs::read_to_string(format!("/proc/{}/status", pid.as_raw())).unwrap_or_default();
+    let mut mask = 0u64;
+    for l in st.lines() {
+        if let Some(v) = l.strip_prefix("ShdPnd:").or_else(|| l.strip_prefix("SigPnd:")) {
+            mask |= u64::from_str_radix(v.trim(), 16).unwrap_or(0);
+        }
+    }
+    SIGS.iter().filter(|(k, _)| mask & (1u64 << (*k as u64 - 1)) != 0).count()
+}
+
 pub fn run(args: &[String]) -> i32 {
     let seed: u64 = args.first().and_then(|s| s.parse().ok()).unwrap_or(1);
     let count: usize = args.get(1).and_then(|s| s.parse().ok()).unwrap_or(10);
@@ -262,15 +274,24 @@ pub fn run_acct(args: &[String]) -> i32 {
         let mut exited = false;
         let mut max_pending = 0usize;
         let mut pending_now = 0usize;
+        let mut queued = 0usize;
         let mut err: Option<String> = None;
-        let windows = rng.range(1, 4);
-        for _ in 0..windows {
+        // every fifth history is directed: a non-quiet signal, steps (its stop is reported and it waits in the tracer's
+        // queue), then a quiet signal and more steps, then continue
+        let directed = h % 5 == 1;
+        let windows = if directed { 2 } else { rng.range(1, 4) };
+        for wi in 0..windows {
             if exited {
                 break;
             }
             let n = if h % 3 != 0 { rng.range(0, 1) } else { rng.range(0, 3) };
             let mut kinds: Vec<i32> = vec![];
-            for _ in 0..n {
+            if directed {
+                let want_quiet = wi == 1;
+                let pool: Vec<i32> = SIGS.iter().filter(|(k, q)| *q == want_quiet && *k != 2).map(|(k, _)| *k).collect();
+                kinds.push(*rng.pick(&pool));
+            }
+            for _ in 0..(if directed { 0 } else { n }) {
                 let k = rng.pick(SIGS).0;
                 if !kinds.contains(&k) && !sent.iter().rev().take(pending_now).any(|x| *x == k) {
                     kinds.push(k);
@@ -281,10 +302,13 @@ pub fn run_acct(args: &[String]) -> i32 {
                 sent.push(*k);
                 evs.push(format!("ASend {} {}", cf::n(1), cf::n(*k as u128)));
             }
-            pending_now += kinds.len();
-            max_pending = max_pending.max(pending_now);
-            for _ in 0..rng.range(0, 6) {
+            // what the kernel really holds pending at this moment (signals already taken by a stepi are in the tracer's
+            // queue or delivered, not pending any more)
+            pending_now = kernel_pending(pid);
+            for _ in 0..(if directed { rng.range(1, 3) } else { rng.range(0, 6) }) {
                 evs.push("AOp OStepi".into());
+                // a step takes what the kernel holds pending (the tracer's queue is not injected by a step)
+                max_pending = max_pending.max(kernel_pending(pid));
                 match s.dbg.stepi() {
                     Ok(()) => {}
                     Err(e) => {
@@ -294,7 +318,11 @@ pub fn run_acct(args: &[String]) -> i32 {
                 }
                 for ev in s.events.take() {
                     match ev {
-                        e2e::Ev::Signal(sig) => reported.push((sig, pid.as_raw())),
+                        e2e::Ev::Signal(sig) => {
+                            reported.push((sig, pid.as_raw()));
+                            // a signal stop reported by a step: the signal now waits in the tracer's injection queue
+                            queued += 1;
+                        }
                         e2e::Ev::Exit(_) => exited = true,
                         _ => {}
                     }
@@ -309,6 +337,9 @@ pub fn run_acct(args: &[String]) -> i32 {
             let mut guard = 0;
             while !exited && guard < 40 {
                 guard += 1;
+                // undelivered signals at this resume: waiting in the tracer's queue + pending in the kernel
+                max_pending = max_pending.max(queued + kernel_pending(pid));
+                queued = 0;
                 evs.push("AOp OCont".into());
                 match s.dbg.continue_debugee_with_reason() {
                     Ok(StopReason::SignalStop(tid, sig)) => reported.push((sig as i32, tid.as_raw())),
